@@ -90,7 +90,7 @@ def fold_text(F, name, text, crate_fns):
     for conds, v in outs:
         if isinstance(v, tuple) and v[0] == "written":
             v = v[1]
-        vals.append(v)
+        vals.append(strfold.as_str(v) if strfold.as_str(v) is not None else v)
     if len(vals) == 1 and strfold.is_str(vals[0]):
         return vals[0], sf, ev
     return None, sf, ev
